@@ -205,12 +205,22 @@ Definition occupied (t : fs) (r : aren) : bool :=
   end.
 Definition first_conflict (t : fs) (rs : list aren) : option aren := find (occupied t) rs.
 
+(* every file with planned edits is read before any file is changed (the loop that fills files_to_edit in apply_plan):
+   a file that is missing, not a regular file or not valid UTF-8 fails the apply while the tree is untouched *)
+Definition readable (t : fs) (f : path) : bool :=
+  match lookup t f with Some (File _ c) => utf8_ok c | _ => false end.
+Definition first_unreadable (t : fs) (files : list (path * list edit)) : option path :=
+  match find (fun fe => negb (readable t (fst fe))) files with Some fe => Some (fst fe) | None => None end.
+
 (* apply_plan up to (not including) the backup / history tail *)
 Definition apply_core (inj : inj_t) (p : aplan) (t : fs) : result :=
   let s0 := {| s_fs := t; s_n := 0; s_trace := [] |} in
   match first_conflict t (ap_renames p) with
   | Some r => {| r_fs := t; r_ok := false; r_fail := Some (FailConflict (ar_new r)); r_trace := [];
                  r_performed := [] |}
+  | None =>
+  match first_unreadable t (edits_by_file (ap_hunks p)) with
+  | Some f => {| r_fs := t; r_ok := false; r_fail := Some (FailRead f); r_trace := []; r_performed := [] |}
   | None =>
   match content_stage inj (edits_by_file (ap_hunks p)) s0 with
   | inr (f, s) =>
@@ -224,6 +234,7 @@ Definition apply_core (inj : inj_t) (p : aplan) (t : fs) : result :=
           let s3 := rollback inj (rev exe) s2 in
           {| r_fs := s_fs s3; r_ok := false; r_fail := Some f; r_trace := rev (s_trace s3); r_performed := perf |}
       end
+  end
   end
   end.
 
